@@ -18,7 +18,18 @@ def get_engine(mode):
     e = _ENG.get(mode)
     if e is None:
         reg = contracts.load_all()
-        e = Engine(mode=mode, contracts=reg)
+        e = Engine(mode=mode, contracts=dict(reg))
+        # robustness against the cache-key refactoring: a contract written for
+        # "m:_f(args, _)" also binds to "m:f(args)" when "_f" no longer exists
+        import copy as _copy
+        for k in list(e.contracts):
+            m, q = k.split(":")
+            if k not in e.db.funcs and q.startswith("_") and (m + ":" + q[1:]) in e.db.funcs:
+                c2 = _copy.copy(e.contracts[k])
+                c2.key = m + ":" + q[1:]
+                c2.inline, c2.use_at_calls = False, True
+                e.contracts[c2.key] = c2
+                e.aliases[k] = c2.key
         for hook in getattr(contracts, "ENGINE_HOOKS", []):
             hook(e)
         _ENG[mode] = e
@@ -46,6 +57,8 @@ def run_task(task):
                 out["results"].append(r.as_dict())
             out["wall_s"] = time.time() - t0
             return out
+        task = dict(task)
+        task["key"] = e.aliases.get(task["key"], task["key"])
         c = e.contracts[task["key"]]
         case = [k for k in c.cases if k.name == task["case"]][0]
         if task.get("extra_requires"):
@@ -71,6 +84,16 @@ def run_task(task):
     except OutOfReach as ex:
         out["status"] = "out-of-reach"
         out["error"] = str(ex)
+        try:
+            out["recipe"] = e.param_recipe
+            out["contract"] = {
+                "requires": c.requires + list(case.requires),
+                "ensures": case.ensures if case.ensures is not None else c.ensures,
+                "returns": c.returns if case.ensures is None else None,
+                "raises": case.raises if case.raises is not None else c.raises,
+                "modifies_self": c.modifies_self}
+        except Exception:
+            pass
     except ContractBindingError as ex:
         out["status"] = "binding-error"
         out["error"] = str(ex)
